@@ -29,6 +29,10 @@ func main() {
 	flag.Parse()
 	r := gen.NewRand(*seed)
 	rep := report{}
+	// first of all, while every lazily filled process-wide table of the library is still cold
+	if d := conc.ColdStartProbe(*vms); d != nil {
+		rep.Diffs = append(rep.Diffs, *d)
+	}
 	for _, c := range conc.Generate(r, *n) {
 		bc, _, err := c.CompileAny()
 		if err != nil {
